@@ -105,8 +105,59 @@ def _view_worker(args):
     return out
 
 
+def _mon_worker(args):
+    """The monitor's own mapped devices (getc/putc, py65/monitor.py:260-280, part of this property's anchors):
+    a program run under a Monitor -- after a seed-derived history of `reset` / `mpu` commands -- stores to the
+    output address and loads from the input address; the putc device must see ONE event per store (one
+    character printed) and the getc device one event per load (one pending byte consumed).  Generator, runner
+    and the event-count oracle are C18's (`props.c18.gen_case/run_case/judge`); only the per-access event counts
+    are judged here."""
+    seed, idx, n = args
+    from props import c18
+    c18.install_timer()
+    rng = random.Random('c12-mon-%d-%d' % (seed, idx))
+    cases = list(c18.fixed_cases()) if idx == 0 else []
+    for k in range(n):
+        cases.append(c18.gen_case(rng, c18.DEVS[(idx + k) % 3]))
+    out = dict(n=0, findings=[], touching=0)
+    for c in cases:
+        r = c18.run_case(c)
+        if r['ctor'] != 'ok':
+            continue
+        out['n'] += 1
+        if c18.classify(c, r):
+            out['touching'] += 1
+        for kind, what in c18.judge(c, r):
+            if not kind.endswith(('-output', '-consumed')):
+                continue
+            if len(out['findings']) < 4:
+                i_, o_, kw_ = c18.mon_args(c)
+                seq = ['Monitor(argv=%r)' % (['py65mon', '-m', c['dev']] + (['-i', i_] if i_ is not None else []) +
+                                             (['-o', o_] if o_ is not None else []))]
+                seq += [('reset' if k_ == 'reset' else 'mpu %s' % a) for k_, a in c['cmds']]
+                out['findings'].append(dict(
+                    key=dict(aspect='monitor-devices', kind=kind.split('-')[-1]),
+                    what='mapped device under the monitor [%s]: %s' % ('; '.join(seq), what),
+                    replay=dict(monitor_case=c18._jsonable(c), sequence=seq, detail=what)))
+    return out
+
+
 def explore(ctx):
     cpu_props.explore(ctx, SPEC)
+    nm = 40 if ctx.quick() else 1500
+    with multiprocessing.Pool(8) as pool:
+        mres = pool.map(_mon_worker, [(ctx.seed, i, nm) for i in range(8)])
+    seen = set()
+    for r in mres:
+        for f in r['findings']:
+            if f['key']['kind'] not in seen:
+                seen.add(f['key']['kind'])
+                ctx.findings.append(f)
+    ctx.stats.setdefault('distribution', {})['monitor_devices'] = dict(
+        cases=sum(r['n'] for r in mres), touching_getc_or_putc=sum(r['touching'] for r in mres))
+    ctx.stats['evaluations'] = ctx.stats.get('evaluations', 0) + sum(r['n'] for r in mres)
+    ctx.note('monitor devices (getc/putc after reset/mpu histories): %d programs, %d touch I or O' % (
+        sum(r['n'] for r in mres), sum(r['touching'] for r in mres)))
     classes = device_classes()
     per = 5 if ctx.quick() else 120
     jobs, k = [], 0
@@ -134,4 +185,20 @@ def explore(ctx):
 
 
 def replay(ctx, path):
+    import json
+    obj = json.load(open(path))
+    rp = (obj.get('finding') or {}).get('replay') or {}
+    if 'monitor_case' in rp:
+        from props import c18
+        c18.install_timer()
+        c = c18._from_json(rp['monitor_case'])
+        r = c18.run_case(c)
+        print('session  : %s' % '; '.join(rp.get('sequence', [])))
+        print('program  : %s, pending input %r' % (c['ops'], c['inp']))
+        bad = False
+        for kind, what in c18.judge(c, r):
+            if kind.endswith(('-output', '-consumed')):
+                print('DIFF     : [device events] %s' % what)
+                bad = True
+        return 1 if bad else 0
     return cpu_props.replay(ctx, path)
